@@ -59,7 +59,11 @@ type Thread struct {
 	Steps    []Step `json:"steps"`
 	Fin      string `json:"fin"`      // nil | err | panic | goexit
 	FinVal   string `json:"finval"`   // err: which error value, "kind:mode" (default generic)
-	PanicVal string `json:"panicval"` // string | error | nil | struct | runtime
+	// the value the body panics with: string | error | nil (panic(nil): *runtime.PanicNilError) | struct |
+	// errpanics (an error whose Error method panics) | and runtime.Errors PRODUCED FOR REAL: runtime (write to a
+	// nil map) | index (index out of range) | nilptr (nil pointer dereference) | assert (failed type assertion) |
+	// divzero (integer division by zero) | nilfunc (call of a nil func)
+	PanicVal string `json:"panicval"`
 	Inline   bool   `json:"inline"`   // only ever run from an "inner" step of another thread
 }
 
@@ -207,6 +211,48 @@ func splitVal(s string) (kind, mode string) {
 type customPanic struct {
 	A int
 	B string
+}
+
+// errPanics: an error whose Error method panics (whoever formats the recovered value with %v meets it)
+type errPanics struct{}
+
+func (errPanics) Error() string { panic("inj: Error() panics") }
+
+var (
+	zeroInt  int
+	nilPtr   *customPanic
+	nilFunc  func() int
+	anyValue any = "a string, not an int"
+	shortArr     = []int{1, 2, 3}
+)
+
+// raisePanic makes the body panic with a value of the given kind; the runtime.Errors are produced for real.
+func raisePanic(kind string) {
+	switch kind {
+	case "error":
+		panic(errors.New("body panics with an error"))
+	case "nil":
+		panic(nil)
+	case "struct":
+		panic(customPanic{A: 1, B: "x"})
+	case "errpanics":
+		panic(errPanics{})
+	case "runtime":
+		var m map[string]int
+		m["x"] = 1
+	case "index":
+		i := len(shortArr) + zeroInt
+		_ = shortArr[i]
+	case "nilptr":
+		_ = nilPtr.A
+	case "assert":
+		_ = anyValue.(int)
+	case "divzero":
+		_ = 7 / zeroInt
+	case "nilfunc":
+		_ = nilFunc()
+	}
+	panic("body panics")
 }
 
 // ---- the scripted driver -------------------------------------------------------
@@ -673,7 +719,11 @@ func (r *runner) threadMain(t int) {
 	defer func() {
 		if rec := recover(); rec != nil {
 			th.out.DidPanic = true
-			th.out.Panicked = fmt.Sprint(rec)
+			kind := fmt.Sprintf("%T", rec)
+			if _, ok := rec.(runtime.Error); ok {
+				kind += " (a runtime.Error)"
+			}
+			th.out.Panicked = "panic escaped: " + kind + ": " + safeSprint(rec)
 		}
 		r.finish(t)
 		th.finished = true
@@ -807,6 +857,15 @@ func (r *runner) finish(t int) {
 
 // rawTx finds the *sql.Tx inside the session handed to a body, whatever the session type looks like
 // today (txSession{*sql.Tx}, a struct with more fields, a wrapper around another session ...).
+func safeSprint(v any) (s string) {
+	defer func() {
+		if recover() != nil {
+			s = "<unprintable>"
+		}
+	}()
+	return fmt.Sprint(v)
+}
+
 func rawTx(s sqlx.Session) *sql.Tx {
 	return findTx(reflect.ValueOf(s), 0)
 }
@@ -1049,6 +1108,9 @@ func (r *runner) body(t int) func(context.Context, sqlx.Session) error {
 				return err
 			case "panic":
 				out.Body = []any{"panic"}
+				if sp.PanicVal != "" && sp.PanicVal != "string" {
+					raisePanic(sp.PanicVal)
+				}
 				panic(fmt.Sprintf("statement %d failed: %v", k, err))
 			}
 		}
@@ -1061,17 +1123,7 @@ func (r *runner) body(t int) func(context.Context, sqlx.Session) error {
 			return th.bodyRet
 		case "panic":
 			out.Body = []any{"panic"}
-			switch sp.PanicVal {
-			case "error":
-				panic(errors.New("body panics with an error"))
-			case "nil":
-				panic(nil)
-			case "struct":
-				panic(customPanic{A: 1, B: "x"})
-			case "runtime":
-				var m map[string]int
-				m["x"] = 1
-			}
+			raisePanic(sp.PanicVal)
 			panic("body panics")
 		case "goexit":
 			out.Body = []any{"goexit"}
